@@ -1,6 +1,6 @@
 ---- MODULE MCGenStr ----
 EXTENDS LangGen
 MCP == [names |-> {"x", "y"}, funs |-> {"f"}, arity |-> [f \in {"f"} |-> 0], ty |-> "str",
-        kinds |-> {"make", "set", "shout", "call", "def", "ret", "block", "loop"},
-        ops |-> {"add"}, maxStmts |-> atoi(IOEnv.MAXSTMTS), minStmts |-> 2, maxDepth |-> atoi(IOEnv.MAXDEPTH), fuel |-> 500, events |-> atoi(IOEnv.EVENTS)]
+        kinds |-> {"interp", "make", "set", "shout", "call", "def", "ret", "block", "loop"},
+        prelude |-> <<>>, preDecl |-> {}, ops |-> {"add"}, maxStmts |-> atoi(IOEnv.MAXSTMTS), minStmts |-> 2, maxDepth |-> atoi(IOEnv.MAXDEPTH), fuel |-> 500, events |-> atoi(IOEnv.EVENTS)]
 ====
